@@ -219,6 +219,33 @@ type variant struct {
 	// of the page is not required to fit (what the implementation does; used only to
 	// compute the feature tag that isolates those cases, never accepted)
 	lenientTop bool
+	// avoidUnit: a break-inside:avoid wrapper that contains a forced break and does not fit
+	// in the rest of the page is treated as one unit (moved to the next page) although it
+	// has to be broken anyway
+	avoidUnit bool
+}
+
+// avoidBoxStart: first line of the outermost break-inside:avoid wrapper that contains both
+// line g-1 and line g (-1 if none).
+func (f *flow) avoidBoxStart(g int) (start, last int) {
+	a, b := f.paras[f.lines[g-1].p], f.paras[f.lines[g].p]
+	for k := 0; k < len(a.path) && k < len(b.path) && a.path[k] == b.path[k]; k++ {
+		w := a.path[k]
+		if w.inside != "avoid" {
+			continue
+		}
+		start, last = -1, -1
+		for _, p := range f.paras {
+			if k < len(p.path) && p.path[k] == w {
+				if start < 0 {
+					start = p.first
+				}
+				last = p.first + p.n.lines - 1
+			}
+		}
+		return start, last
+	}
+	return -1, -1
 }
 
 // closingWrapperDeco: bottom decorations, closing right after line g, of wrappers that
@@ -311,11 +338,23 @@ func (f *flow) paginate(H float64, v variant) mresult {
 			}
 		}
 		e := -1
-		if cum[F-1] <= H+eps {
+		limit := F
+		if v.avoidUnit && F < N && cum[F-1] <= H+eps {
+			if ws, wl := f.avoidBoxStart(F); ws > pos && cum[wl] > H+eps {
+				limit = ws
+			}
+		}
+		if limit == F && cum[F-1] <= H+eps {
 			e = F
 		} else {
 			sawFit := false
-			for g := F - 2; g >= pos; g-- {
+			// candidates: a break after line g; the point before line F itself is the forced
+			// one, the point before the avoid wrapper (limit < F) is an ordinary candidate
+			top := F - 2
+			if limit < F {
+				top = limit - 1
+			}
+			for g := top; g >= pos; g-- {
 				if cum[g] > H+eps {
 					continue
 				}
@@ -377,6 +416,17 @@ func (f *flow) variants() []variant {
 		// is ignored, selects the side of the first page, or inserts a blank page is open
 		if s == "left" {
 			vs = append(vs, variant{startRight: false}, variant{startRight: true, leadingBlank: true})
+		}
+	}
+	for _, ca := range f.a {
+		if ca.forced && ca.inAvoid {
+			n := len(vs)
+			for i := 0; i < n; i++ {
+				w := vs[i]
+				w.avoidUnit = true
+				vs = append(vs, w)
+			}
+			break
 		}
 	}
 	if ambiguous {
